@@ -12,6 +12,15 @@ CLAIMED = {
  'C12': dict(cat='proof', tech='Coq proof on the ECU timer model + correspondence by replay of the real handlers + timing oracle',
    text='theorems on the model of the (repaired) timer loop: removal is complete for any number of duplicates, re-arming is drift-free for every deadline/period/clock reading, a registration is never invoked early, each due registration of a pass snapshot is invoked once; the model is replayed against the real ECU (incl. operations from inside callbacks); oracle checks firing instants against t_reg + k*delta within the scheduling latency',
    note='upper bounds are relative to the jitter J of assumption A3; thread races below handler granularity are not exhibited'),
+ 'C04': dict(cat='proof', tech='Coq proof of an inductive network invariant (any number of CAs, any schedule) + tie lemmas to the node handlers + correspondence',
+   text='per-CA step functions proved equal to the node-level claim handlers of Model21; conflict invariant for every reachable state of a network of any number of CAs under any schedule of timer firings and FIFO deliveries; uniqueness at quiescence; an address is only left to a strictly lower NAME; loser behaviour; yield measure; arbitration compares the 64-bit NAME values (via the C15 codec theorems); real 2-4 CA contests under virtual time (incl. zero latency) checked by an oracle and replayed on the model',
+   note='settle-time bound not proved (oracle checks settlement at last claim + 4 s); the network theorem is for deferred (queued) delivery, the zero-latency order is covered by the correspondence runs (which found and led to the fix of the send-before-state defect)'),
+ 'C13': dict(cat='proof', tech='Coq proof (invariant over claim histories, guard and source-address theorems) + correspondence + oracle',
+   text='invariant over every history of timer firings and received claims (operational => address = announced), the three send entry points raise without effect in every non-operational state, frames of an operational CA carry the held address (identifier decoded with the C15 theorems), request for the claim PGN goes out from 254; real claim histories with send attempts at every phase checked by an oracle and replayed on the model',
+   note='in-flight multi-packet sessions of a CA that loses its address are not examined; services built on send_pgn (Dm1/Dm22/DM14) inherit the guard by calling it'),
+ 'C14': dict(cat='proof', tech='Coq proof of the request codec and dispatch (induction over the CA list) + correspondence + oracle',
+   text='request payload/decoder are inverse for all 24-bit values, send_request frame fields, notify dispatches a request to exactly the operational owners in order (induction over any CA list), EE00 answered by a claim from the held address, CAs without address silent; real requester/responder stacks checked by an oracle and replayed on the model',
+   note='data page 1 requests are sent under PGN 0x1EA00 and treated by receivers as ordinary messages (safety half only, recorded reading)'),
 }
 props = [json.loads(l) for l in open(os.path.join(ROOT, 'properties.jsonl'))]
 old = {}
